@@ -468,10 +468,17 @@ macro_rules! def_build1 {
                     let data = data.into_dimensionality::<$D>().ok()?;
                     match strat {
                         Strat1::Linear { extrapolate } => {
-                            let b = Interp1DBuilder::new(data).strategy(Linear::new().extrapolate(*extrapolate));
-                            Some(match x {
-                                Some(x) => b.x(x).build().map(|i| Box::new(i) as Box<$obj>),
-                                None => b.build().map(|i| Box::new(i) as Box<$obj>),
+                            // the way the builder is obtained and the order of its calls are varied (a function of the data content)
+                            let s = Linear::new().extrapolate(*extrapolate);
+                            let h = crate::common::splitmix(data.iter().next().map(|v| v.key()).unwrap_or(0) ^ (data.len() as u64) << 7);
+                            Some(match (x, h % 5) {
+                                (Some(x), 0) => Interp1D::builder(data).x(x).strategy(s).build().map(|i| Box::new(i) as Box<$obj>),
+                                (Some(x), 1) => Interp1DBuilder::new(data).x(x).strategy(s).build().map(|i| Box::new(i) as Box<$obj>),
+                                (Some(x), 2) if !*extrapolate => Interp1D::builder(data).x(x).build().map(|i| Box::new(i) as Box<$obj>),
+                                (Some(x), _) => Interp1DBuilder::new(data).strategy(s).x(x).build().map(|i| Box::new(i) as Box<$obj>),
+                                (None, 0) => Interp1D::builder(data).strategy(s).build().map(|i| Box::new(i) as Box<$obj>),
+                                (None, 2) if !*extrapolate => Interp1D::builder(data).build().map(|i| Box::new(i) as Box<$obj>),
+                                (None, _) => Interp1DBuilder::new(data).strategy(s).build().map(|i| Box::new(i) as Box<$obj>),
                             })
                         }
                         Strat1::Spline { extrapolate, bc } => {
@@ -482,10 +489,13 @@ macro_rules! def_build1 {
                             } else {
                                 CubicSpline::<T, $D>::new().boundary(bcv).extrapolate(*extrapolate)
                             };
-                            let b = Interp1DBuilder::new(data).strategy(s);
-                            Some(match x {
-                                Some(x) => b.x(x).build().map(|i| Box::new(i) as Box<$obj>),
-                                None => b.build().map(|i| Box::new(i) as Box<$obj>),
+                            let h = crate::common::splitmix(data.len() as u64 ^ 0xB01D);
+                            Some(match (x, h % 3) {
+                                (Some(x), 0) => Interp1D::builder(data).x(x).strategy(s).build().map(|i| Box::new(i) as Box<$obj>),
+                                (Some(x), 1) => Interp1DBuilder::new(data).x(x).strategy(s).build().map(|i| Box::new(i) as Box<$obj>),
+                                (Some(x), _) => Interp1DBuilder::new(data).strategy(s).x(x).build().map(|i| Box::new(i) as Box<$obj>),
+                                (None, 0) => Interp1D::builder(data).strategy(s).build().map(|i| Box::new(i) as Box<$obj>),
+                                (None, _) => Interp1DBuilder::new(data).strategy(s).build().map(|i| Box::new(i) as Box<$obj>),
                             })
                         }
                     }
@@ -511,7 +521,17 @@ macro_rules! def_build2 {
             macro_rules! go {
                 ($D:ty) => {{
                     let data = data.into_dimensionality::<$D>().ok()?;
-                    let b = Interp2DBuilder::new(data).strategy(Bilinear::new().extrapolate(extrapolate));
+                    let h = crate::common::splitmix(data.iter().next().map(|v| v.key()).unwrap_or(0) ^ (data.len() as u64) << 7);
+                    let s = Bilinear::new().extrapolate(extrapolate);
+                    // the way the builder is obtained and the order of its calls are varied
+                    match (x.is_some() && y.is_some(), h % 4) {
+                        (true, 0) => return Some(Interp2D::builder(data).y(y.unwrap()).x(x.unwrap()).strategy(s).build().map(|i| Box::new(i) as Box<$obj>)),
+                        (true, 1) => return Some(Interp2DBuilder::new(data).x(x.unwrap()).strategy(s).y(y.unwrap()).build().map(|i| Box::new(i) as Box<$obj>)),
+                        (true, 2) if !extrapolate => return Some(Interp2D::builder(data).x(x.unwrap()).y(y.unwrap()).build().map(|i| Box::new(i) as Box<$obj>)),
+                        (false, 0) if x.is_none() && y.is_none() && !extrapolate => return Some(Interp2D::builder(data).build().map(|i| Box::new(i) as Box<$obj>)),
+                        _ => {}
+                    }
+                    let b = Interp2DBuilder::new(data).strategy(s);
                     Some(match (x, y) {
                         (Some(x), Some(y)) => b.x(x).y(y).build().map(|i| Box::new(i) as Box<$obj>),
                         (Some(x), None) => b.x(x).build().map(|i| Box::new(i) as Box<$obj>),
@@ -534,6 +554,36 @@ macro_rules! def_build2 {
 }
 def_build2!(build2, dyn I2<T>);
 def_build2!(build2_sync, dyn I2<T> + Send + Sync);
+
+/// Linear interpolator from `new_unchecked` (the caller guarantees valid inputs)
+pub fn build1_unchecked<T: Flt>(x: Array1<T>, data: ArrayD<T>, dd: DDim, extrapolate: bool) -> Option<Box<dyn I1<T>>> {
+    macro_rules! go {
+        ($D:ty) => {{
+            let data = data.into_dimensionality::<$D>().ok()?;
+            Some(Box::new(Interp1D::new_unchecked(x, data, Linear::new().extrapolate(extrapolate))) as Box<dyn I1<T>>)
+        }};
+    }
+    ddispatch!(dd, go)
+}
+
+/// Bilinear interpolator from `new_unchecked` (the caller guarantees valid inputs)
+pub fn build2_unchecked<T: Flt>(x: Array1<T>, y: Array1<T>, data: ArrayD<T>, dd: DDim, extrapolate: bool) -> Option<Box<dyn I2<T>>> {
+    macro_rules! go {
+        ($D:ty) => {{
+            let data = data.into_dimensionality::<$D>().ok()?;
+            Some(Box::new(Interp2D::new_unchecked(x, y, data, Bilinear::new().extrapolate(extrapolate))) as Box<dyn I2<T>>)
+        }};
+    }
+    match dd {
+        DDim::S1 => None,
+        DDim::S2 => go!(Ix2),
+        DDim::S3 => go!(Ix3),
+        DDim::S4 => go!(Ix4),
+        DDim::S5 => go!(Ix5),
+        DDim::S6 => go!(Ix6),
+        DDim::Dyn => go!(IxDyn),
+    }
+}
 
 /// which of the two orders of `CubicSpline::extrapolate` / `CubicSpline::boundary` a builder uses
 pub fn builder_order(h: u64) -> bool {
